@@ -359,7 +359,7 @@ def is_lmf(source: AnyPath) -> bool:
     with source.open(mode='rb') as fh:
         try:
             _read_header(fh)
-        except LMFError:
+        except (LMFError, UnicodeDecodeError):
             return False
     return True
 
